@@ -1,36 +1,36 @@
 SPECIFICATION Spec
 CONSTANTS
   MinBodies = 3
-  MaxBodies = 4
-  JTypes <- AllJ
-  Axes <- Ax6
-  Offsets <- D_OffMix
-  Rots <- K_Rot
-  Anchors <- K_Anc
-  SitePos <- D_Site0
-  SiteRots <- K_SRot
-  Masses <- D_Mass
-  Inertias <- K_Inr
-  IPoss <- K_IPos
-  Arms <- D_Arm
+  MaxBodies = 3
+  JTypes <- MovJ
+  Axes <- D_Ax1
+  Offsets <- D_OffAx1
+  Rots <- R0
+  Anchors <- K_Anc1
+  SitePos <- V000
+  SiteRots <- K_SRot1
+  Masses <- One1
+  Inertias <- K_Inr1
+  IPoss <- K_IPos1
+  Arms <- One1
   Stiffs <- One0
   Refs <- One0
   Damps <- One0
   GCs <- One0
-  TCoefs <- D_TC
-  Qs <- K_Q
-  Vs <- K_V
-  As <- K_A
+  TCoefs <- One0
+  Qs <- One0
+  Vs <- D_V02
+  As <- One1
   QScales <- QS1
-  Gravs <- K_G
+  Gravs <- K_G1
   DisSets <- NoDis
   TenK <- One0
   TenRanges <- Rng0
   TenDamps <- One0
-  TenArms <- D_TArm
-  TenZero <- BothTz
-  SpPairs <- D_Sp
-  SpArms <- D_SpArm
+  TenArms <- One0
+  TenZero <- NoTz
+  SpPairs <- NoSpS
+  SpArms <- One0
   Sleeps <- BothTz
   StiffPolys <- P00
   DampPolys <- P00
@@ -41,7 +41,7 @@ CONSTANTS
   SpDamps <- T000
   Level = 2
   Tie = FALSE
-  Rand = TRUE
+  Rand = FALSE
 INVARIANT TypeOK
 INVARIANT FramesProper
 INVARIANT MSymmetric
